@@ -206,7 +206,9 @@ Failures(k) ==
     IF Ok(e, "Respond") /\ e.kind = "bad"
     THEN (IF Rid(e) \in DOMAIN req /\ Rid(e)[1] \in DOMAIN ctx /\ BindOfReq(Rid(e)) = k THEN 1 ELSE 0)
     ELSE IF e.name = "ExpireBatch"
+    \* a request has timed out when its own expiry block is ending - not before
     THEN Cardinality({r \in Settled : /\ r \in DOMAIN req /\ r[1] \in DOMAIN ctx
+                                      /\ req[r].exp <= height
                                       /\ ~ctx[r[1]].super /\ BindOfReq(r) = k})
     ELSE 0
 
@@ -242,7 +244,8 @@ Step_C05 ==
           /\ BK(e.svc, e.prov) \in DOMAIN bind
           /\ bind[BK(e.svc, e.prov)].owner = e.signer
     /\ (Ok(e, "Withdraw") /\ e.prov # "") =>
-          e.prov \in DOMAIN powner /\ powner[e.prov] = e.signer
+          /\ e.prov \in DOMAIN powner /\ powner[e.prov] = e.signer
+          /\ \A k \in DOMAIN bind : k[2] = e.prov => bind[k].owner = e.signer
     /\ (e.name \in {"Pause", "Start", "Kill", "UpdateContext"} /\ e.ok) =>
           /\ e.id \in DOMAIN ctx
           /\ ctx[e.id].cons = e.signer
@@ -251,6 +254,8 @@ Step_C05 ==
     /\ Ok(e, "Bind") =>
           /\ e.svc \notin DOMAIN ModSvc
           /\ (e.prov \in DOMAIN powner => powner[e.prov] = e.signer)
+          \* (a provider belongs to the owner of its bindings, whatever the index says)
+          /\ \A k \in DOMAIN bind : k[2] = e.prov => bind[k].owner = e.signer
     /\ (e.name \in MsgNames \cup {"BankSend"}) =>
           \A a \in Ordinary \ {e.signer} : bal'[a] >= bal[a]
     /\ (e.name \in SubNames) =>
@@ -441,10 +446,24 @@ Inv_C10 ==
                /\ hist[id].starts <= hist[id].maxTotal      \* (counted by the observer, across restarts)
         /\ (~ctx[id].rep /\ id \in DOMAIN hist) => hist[id].starts <= 1
 
+\* "unchanged timeout and frequency": the terms of the cadence are the consumer's - they change only by an
+\* accepted update that carries a new value, and then to that value
+CadenceTermsStable ==
+    LET e == ev' IN
+    \A id \in DOMAIN ctx \cap DOMAIN ctx' :
+        LET o == ctx[id]
+            n == ctx'[id]
+            upd == e.name \in {"UpdateContext", "ModUpdate"} /\ e.ok /\ e.id = id
+        IN /\ n.timeout # o.timeout => (upd /\ e.timeout # 0 /\ n.timeout = e.timeout)
+           /\ n.freq # o.freq => (upd /\ e.freq # 0 /\ n.freq = e.freq)
+           /\ (upd /\ e.timeout # 0) => n.timeout = e.timeout
+           /\ (upd /\ e.freq # 0) => n.freq = e.freq
+
 Step_C10 ==
     LET e == ev' IN
     IF IsMeta(e) THEN TRUE
     ELSE
+    /\ CadenceTermsStable
     /\ (e.name = "StartBatch" /\ e.id \in DOMAIN ctx /\ e.id \in DOMAIN ctx'
         /\ ctx'[e.id].batch > ctx[e.id].batch) =>
            \* never two batches in flight
